@@ -112,9 +112,22 @@ def projVerdict (holdsI holdsM : Bool) (pi pm : List Str) (domain : Bool := true
   { holdsImpl := holdsI, holdsModel := holdsM, projEqual := pi == pm, domain := domain,
     why := if pi == pm then "" else firstDiff pi pm }
 
+/-- observation of the model run on a *specification variant* of the document. -/
+def specObs (dspec : D Document) (o : Opts) (m : Mode) (vc : Bool) : Option Obs :=
+  match dspec with
+  | .error _ => none
+  | .ok d => match generate d o m vc with
+    | .ok out => some (Obs.ofOutputs out)
+    | .error _ => none
+
 /-- per-property verdicts for a successful generation on both sides. -/
-def evalProp (p : String) (d : Document) (o : Opts) (oi om : Obs) : Option Verdict :=
+def evalProp (p : String) (y : Y) (d : Document) (o : Opts) (m : Mode) (vc : Bool) (oi om : Obs) : Option Verdict :=
   match p with
+  | "C08" => some (projVerdict true true (C08.proj oi) (C08.proj om))
+  | "C14" =>
+    match specObs (C14.specParse y) o m vc with
+    | some os => some (projVerdict (C14.proj oi == C14.proj os) (C14.proj om == C14.proj os) (C14.proj oi) (C14.proj om))
+    | none => some { holdsImpl := false, holdsModel := false, projEqual := C14.proj oi == C14.proj om, why := "spec variant did not generate" }
   | "C06" => some (projVerdict true true (C06m.proj oi) (C06m.proj om))
   | "C12" => some (projVerdict (C12.holds d o oi) (C12.holds d o om) (C12.proj oi) (C12.proj om))
   | "C13" => some (projVerdict (C13.holds d oi) (C13.holds d om) (C13.proj oi) (C13.proj om))
@@ -154,7 +167,7 @@ def handleCheck (req : Json) : Json :=
       let all := implOutcome == "ok" && agree.all (·.2)
       let props : List (String × Json) :=
         if implOutcome == "ok" then
-          want.filterMap fun p => (evalProp p d opts oi om).map fun v => (p, verdictJson v)
+          want.filterMap fun p => (evalProp p y d opts mode vc oi om).map fun v => (p, verdictJson v)
         else []
       Json.mkObj (base ++ [("model_outcome", js "ok"), ("outcome_agree", jb (implOutcome == "ok")),
         ("full_equal", jb all),
@@ -193,6 +206,26 @@ def handleEqmod (req : Json) : Json :=
           (x.partials.zip y.partials).all fun (p, q) => p.1 == q.1 && C06.eqModBlank p.2 q.2)]
     let bad := chk.filter (fun kv => !kv.2)
     Json.mkObj [("equal", jb bad.isEmpty), ("why", js (String.intercalate "," (bad.map (·.1))))]
+
+def jnatOpt (o : Option Nat) : Json := match o with | some n => .num ⟨n, 0⟩ | none => .null
+
+/-- `resolved` op: the twelve overridable options of every parsed segment, after resolution (C08). -/
+def handleResolved (req : Json) : Json :=
+  let c := getObj req "case"
+  match parseDocument (toY (getObj c "doc")) with
+  | .error e => Json.mkObj [("error", js (errName e))]
+  | .ok d =>
+    Json.mkObj [("segments", Json.arr (d.segments.map fun seg =>
+      let r := C08.ofSegment seg
+      Json.mkObj [
+        ("alloc_sections", jstrs r.allocSections), ("noload_sections", jstrs r.noloadSections),
+        ("subalign", jnatOpt r.subalign), ("segment_start_align", jnatOpt r.segmentStartAlign),
+        ("segment_end_align", jnatOpt r.segmentEndAlign), ("section_start_align", jnatOpt r.sectionStartAlign),
+        ("section_end_align", jnatOpt r.sectionEndAlign),
+        ("sections_start_alignment", Json.mkObj (r.sectionsStartAlignment.map fun (k, v) => (t2s k, Json.num ⟨v, 0⟩))),
+        ("sections_end_alignment", Json.mkObj (r.sectionsEndAlignment.map fun (k, v) => (t2s k, Json.num ⟨v, 0⟩))),
+        ("wildcard_sections", jb r.wildcardSections), ("fill_value", jnatOpt r.fillValue),
+        ("sections_subgroups", Json.mkObj (r.sectionsSubgroups.map fun (k, v) => (t2s k, jstrs v)))]).toArray)]
 
 def sortFs (fs : List (String × String)) : List (String × String) :=
   (fs.toArray.qsort (fun a b => a.1 < b.1)).toList
@@ -250,6 +283,7 @@ def handle (req : Json) : Json :=
   | "prune" => handlePrune req
   | "eqmod" => handleEqmod req
   | "files" => handleFiles req
+  | "resolved" => handleResolved req
   | _ => handleCheck req
 
 partial def loop (h : IO.FS.Stream) (out : IO.FS.Stream) : IO Unit := do
